@@ -244,6 +244,16 @@ impl Space for Long {
         let body = build_notes(enc.order, align, &notes, 0);
         let mut dig = Fnv::new();
         let mut y = 0;
+        {
+            // one large note: a 300-byte name and a 70 000-byte descriptor, followed by a build-id
+            let big = vec![
+                NoteSpec { n_type: 9, name: (0..300).map(|i| b'A' + (i % 26) as u8).collect(), desc: (0..70_000usize).map(|i| (i % 251) as u8).collect() },
+                NoteSpec { n_type: 3, name: b"GNU\0".to_vec(), desc: desc_bytes(20, 1) },
+            ];
+            let data = build_notes(enc.order, align, &big, 0);
+            let got = subject(|| collect(NoteIterator::new(e, class, align, &data), &data, data.len() + 2));
+            y += compare("NoteIterator(70000-byte descriptor)", &data, enc.order, align, got, out, &mut dig);
+        }
         for cut in 0..=64usize.min(body.len()) {
             let data = &body[..body.len() - cut];
             let got = subject(|| collect(NoteIterator::new(e, class, align, data), data, data.len() + 2));
